@@ -21,7 +21,7 @@ func init() {
 		Rule: "graph-level gradient monitor: seeded random straight-line programs (3-40 operations over Scale/Sin/Cos/Tanh/Exp/Pow/Add/Sub/Mul/Div/Sum-,MeanAlong/Reshape/Transpose/UnSqueeze/Flatten/Slice/Concat/Patch/MatMul/Dot, leaves tracked or not at random, operand choice biased towards results that already have a consumer, same node used twice by one op) are executed on the real library once per root (every tensor of the program is tried as root; a sample of 8 roots for programs longer than 16); after BackPropagate(root) EVERY tensor's Gradient() is compared with the reverse-topological reference tape (nil-ness, shape, value). " +
 			"Second family: 2-4 sub-programs over shared leaves only, back-propagated in turn; leaves must hold the sum. Third family: ladders h<-a*h+b*h and fan-out chains of depth 8..64 (256 in thorough). " +
 			"Bounded-application clause: the verif hook counts backward-rule applications per BackPropagate; invariant total <= 4E+4 and no edge more than 4 times (E = upper bound on back edges incl. implicit Broadcast nodes); the callback aborts the walk as soon as the bound is exceeded. Hook-free twin: malloc count of BackPropagate on ladders of depth 10..18 must stay <= 20 x (mallocs per edge at depth 3) x E. " +
-			"Non-trivial: the root reaches an interior node with >= 2 consumers and a tracked leaf; distinct = (max fan-out, number of reconvergent nodes, depth, number of instructions, root).",
+			"Non-trivial: the root reaches an interior node with >= 2 consumers and a tracked leaf; distinct = (max fan-out, number of reconvergent nodes, depth, number of instructions, root). Later additions: explicit Broadcast (factor 1), order statistics / spread / ElMax / ElMin / Log / Cosh / Tan / Squeeze in the op mix, scale factors 1, -1 and 0; an endurance case of 70 000 checked back-propagations in one process. Comparison is judged against the reference tape run on absolute values; programs whose reference gradients exceed 1e8 get no verdict.",
 		Assumptions: []string{
 			"operands of binary operations have equal shapes (expansion factor 1): expansion semantics are C07's subject and carry a recorded finding",
 			"values are kept inside the differentiable region and |v| <= 50 by the value-aware generator",
